@@ -947,6 +947,8 @@ package server
 
 //@ unit (*Store).GetRelatedAtTime
 //@   prop C03 C06 C07
+//@   ghost delG intmap
+//@   ghost prevPredG int = 0
 //@   requires s != nil
 //@   requires [index-of-the-direction] from != nil ==> encBE16(from.RelationIndexFromKey, 0) == (from.Inverse ? 2 : 3)
 //@   requires-inv [existing-objects] foreign(s.deletedDatasets)
@@ -960,11 +962,16 @@ package server
 //@     assert [C06,C03:incoming-scan-stops-only-when-the-index-is-exhausted-or-the-page-is-full] (0 <= $itPos[outgoingIterator] && $itPos[outgoingIterator] < N($itTxn[outgoingIterator]) && hasPfx(K($itTxn[outgoingIterator], $itPos[outgoingIterator]), $itPlen[outgoingIterator], $itPcl[outgoingIterator], $itPds[outgoingIterator], $itP64[outgoingIterator]) && kcl(K($itTxn[outgoingIterator], $itPos[outgoingIterator])) == encBE16(searchBuffer, 0) && k64at2(K($itTxn[outgoingIterator], $itPos[outgoingIterator])) == encBE64(searchBuffer, 2)) ==> limit != 0 && len(results) >= limit
 //@   at $1 call ValidForPrefix#4 before
 //@     assert [C06,C03:outgoing-scan-stops-only-when-the-index-is-exhausted-or-the-page-is-full] (0 <= $itPos[outgoingIterator] && $itPos[outgoingIterator] < N($itTxn[outgoingIterator]) && hasPfx(K($itTxn[outgoingIterator], $itPos[outgoingIterator]), $itPlen[outgoingIterator], $itPcl[outgoingIterator], $itPds[outgoingIterator], $itP64[outgoingIterator]) && kcl(K($itTxn[outgoingIterator], $itPos[outgoingIterator])) == encBE16(searchBuffer, 0) && k64at2(K($itTxn[outgoingIterator], $itPos[outgoingIterator])) == encBE64(searchBuffer, 2)) ==> limit != 0 && len(results) >= limit
+//@   at $1 call copy#1 before
+//@     ghost delG := put(delG, predID, del)
+//@     ghost prevPredG := predID
 //@   at $1 call append#1 before
+//@     assert [C03:incoming-result-comes-from-a-live-reference-key] delG[prevResult.PredicateID] != 1
 //@     assert [C03,C06,C07:incoming-result-passed-the-dataset-time-and-predicate-filters] !(has(s.deletedDatasets, prevResult.DatasetID) && s.deletedDatasets[prevResult.DatasetID]) && (len(from.Datasets) == 0 || (exists k int :: 0 <= k && k < len(from.Datasets) && from.Datasets[k] == prevResult.DatasetID)) && prevResult.Time <= from.At && (from.Predicate == 0 || from.Predicate == prevResult.PredicateID)
 //@   at $1 call append#2 before
 //@     assert [C03,C06,C07:incoming-result-passed-the-dataset-time-and-predicate-filters] !(has(s.deletedDatasets, dsResult.DatasetID) && s.deletedDatasets[dsResult.DatasetID]) && (len(from.Datasets) == 0 || (exists k int :: 0 <= k && k < len(from.Datasets) && from.Datasets[k] == dsResult.DatasetID)) && dsResult.Time <= from.At && (from.Predicate == 0 || from.Predicate == dsResult.PredicateID)
 //@   at $1 call append#3 before
+//@     assert [C03:incoming-result-comes-from-a-live-reference-key] delG[prevResult.PredicateID] != 1
 //@     assert [C03,C06,C07:incoming-result-passed-the-dataset-time-and-predicate-filters] !(has(s.deletedDatasets, prevResult.DatasetID) && s.deletedDatasets[prevResult.DatasetID]) && (len(from.Datasets) == 0 || (exists k int :: 0 <= k && k < len(from.Datasets) && from.Datasets[k] == prevResult.DatasetID)) && prevResult.Time <= from.At && (from.Predicate == 0 || from.Predicate == prevResult.PredicateID)
 //@   at $1 call append#4 before
 //@     assert [C03,C06,C07:incoming-result-passed-the-dataset-time-and-predicate-filters] !(has(s.deletedDatasets, dsResult.DatasetID) && s.deletedDatasets[dsResult.DatasetID]) && (len(from.Datasets) == 0 || (exists k int :: 0 <= k && k < len(from.Datasets) && from.Datasets[k] == dsResult.DatasetID)) && dsResult.Time <= from.At && (from.Predicate == 0 || from.Predicate == dsResult.PredicateID)
@@ -977,6 +984,8 @@ package server
 //@   loop $1:1
 //@     invariant encBE16(searchBuffer, 0) == 2 && len(searchBuffer) == 10 && $itPlen[outgoingIterator] == 10
 //@     invariant prevResults != nil && (currentRID != 0 ==> dsSpillOver != nil)
+//@     invariant forall p uint64 :: has(prevResults, p) ==> prevResults[p].PredicateID == p
+//@     invariant currentRID != 0 ==> (prevDeleted <==> delG[prevPredG] == 1) && has(prevResults, prevPredG)
 //@     invariant forall p uint64 :: has(prevResults, p) ==> !(has(s.deletedDatasets, prevResults[p].DatasetID) && s.deletedDatasets[prevResults[p].DatasetID])
 //@     invariant forall p uint64 :: has(prevResults, p) ==> (len(from.Datasets) == 0 || (exists k int :: 0 <= k && k < len(from.Datasets) && from.Datasets[k] == prevResults[p].DatasetID))
 //@     invariant forall p uint64 :: has(prevResults, p) ==> prevResults[p].Time <= from.At
